@@ -54,8 +54,10 @@ EXTRA = {
     ],
 }
 
-NAMES = ["a", "b", "c", "d", "e", "x y", "é", "A"]
-PHYS = ["m", "kg", "-", "mm", "s", "datetime", "N/m"]
+# column names and units include characters str.splitlines() breaks at (U+2028, U+0085, \x0b, \x1c), a BOM inside a
+# value and astral characters: a name or unit is one cell whatever it contains
+NAMES = ["a", "b", "c", "d", "e", "x y", "é", "A", "p\u2028q", "r\x85", "\ufeffh", "\U0001F600k", "v\x0bw", "\x1cz"]
+PHYS = ["m", "kg", "-", "mm", "s", "datetime", "N/m", "m\u2029s", "k\x85g", "\U0001D538", "u\x1d"]
 SPECIAL = ["text", "onoff"]
 KINDS = ["f", "f", "i", "b", "s", "s", "o", "M", "c", "I", "B", "f4", "fn", "sn", "m", "C", "Mz", "Mz", "F8", "P"]
 REFUSALS = ("ColumnUnitException", "InvalidNamingError", "ValueError")
@@ -65,6 +67,71 @@ def fresh(u):
     """an equal but distinct string object (built at run time, as units read from files are): literals and
     one-character strings are shared objects in CPython, which hides identity comparisons"""
     return u if u is None else "".join(list(u))
+
+
+class RecRng:
+    """the history's random source, recording every drawn value: a failing history is replayed from the drawn
+    values themselves (`ReplayRng`), so a replay file keeps meaning the same history when pools, weights or the
+    position of the case in a stream change"""
+
+    def __init__(self, base):
+        self.base, self.log = base, []
+
+    def _rec(self, v):
+        self.log.append(v)
+        return v
+
+    def random(self):
+        return self._rec(self.base.random())
+
+    def uniform(self, a, b):
+        return self._rec(self.base.uniform(a, b))
+
+    def randint(self, a, b):
+        return self._rec(self.base.randint(a, b))
+
+    def choice(self, seq):
+        return self._rec(self.base.choice(list(seq)))
+
+    def sample(self, seq, k):
+        return self._rec(self.base.sample(list(seq), k))
+
+    def choices(self, seq, weights=None):
+        return self._rec(self.base.choices(seq, weights))
+
+
+class ReplayRng:
+    """hands back the recorded draws in order; when they run out the history is cut (the failure it was recorded
+    for has happened by then)"""
+
+    def __init__(self, log):
+        self.log, self.pos = list(log), 0
+
+    def _next(self):
+        if self.pos >= len(self.log):
+            raise Abort("replay log exhausted")
+        v = self.log[self.pos]
+        self.pos += 1
+        return v
+
+    def random(self):
+        return self._next()
+
+    def uniform(self, a, b):
+        return self._next()
+
+    def randint(self, a, b):
+        return self._next()
+
+    def choice(self, seq):
+        v = self._next()
+        return tuple(v) if isinstance(v, list) and seq and isinstance(list(seq)[0], tuple) else v
+
+    def sample(self, seq, k):
+        return self._next()
+
+    def choices(self, seq, weights=None):
+        return self._next()
 
 
 class Abort(Exception):
@@ -893,6 +960,23 @@ def op_df_fillna_inplace(ctx):
     return inplace(ctx, lambda df: df.fillna(val, inplace=True), f"df.fillna({val!r},inplace)")
 
 
+def op_df_break_middle(ctx):
+    """overwrite, in place, a 'text' / 'onoff' column from the middle of the frame with floats (a type-breaking
+    assignment far away from both ends of a wide table)"""
+    rng = ctx.rng
+    cols = list(ctx.df.columns)
+    n = len(cols)
+    mid = [c for c, dt in list(zip(cols, ctx.df.dtypes))[n // 3: max(n // 3 + 1, 2 * n // 3)] if dt.kind in "ObSU"]
+    if not mid:
+        return "break_middle(nothing)"
+    name = rng.choice(mid)
+    vals = make_values(rng, "f", len(ctx.df))
+
+    def f(df):
+        df[name] = vals
+    return inplace(ctx, f, f"df[{name!r}]=f (middle column of {n})")
+
+
 def op_df_restore(ctx):
     """put the frame back, in place, to exactly what it was at the last successful consultation
     (same labels, same dtypes, same number of rows): the remembered-state short cut may fire"""
@@ -1160,6 +1244,7 @@ OPS = {
     "df_assign": (op_df_assign, 6), "df_astype": (op_df_astype, 4), "df_loc_append": (op_df_loc_append, 4),
     "df_drop_rows": (op_df_drop_rows, 2), "df_dropcols": (op_df_drop_cols_inplace, 2), "df_setcell": (op_df_setcell, 2),
     "df_fillna_inplace": (op_df_fillna_inplace, 1), "df_restore": (op_df_restore, 5), "df_del_all": (op_df_del_all, 2),
+    "df_break_middle": (op_df_break_middle, 2),
     "select": (op_select, 6), "copy": (op_copy, 3), "sort_index": (op_sort_index, 3), "reindex": (op_reindex, 4),
     "concat": (op_concat, 6), "merge": (op_merge, 5), "assign": (op_assign, 4), "drop": (op_drop, 3),
     "astype": (op_astype, 4), "fillna": (op_fillna, 2), "replace": (op_replace, 2), "rename": (op_rename, 3),
@@ -1191,13 +1276,30 @@ def probe(ctx, writers):
     lookups = []
 
     def do_lookups():
-        for n in list(dict.fromkeys(names)) + ([ctx.rng.choice(NAMES)] if ctx.rng.random() < 0.3 else []):
+        uniq = list(dict.fromkeys(names))
+        if len(uniq) > 40:
+            # wide table: the facade lookup `table[name]` (also sent to the model) for both ends and the middle; the
+            # remaining columns are looked up by name in `column_metadata` below (same register, one consultation)
+            m = len(uniq) // 2
+            facade = list(dict.fromkeys(uniq[:4] + uniq[m - 4:m + 4] + uniq[-4:]))
+        else:
+            facade = uniq
+        for n in facade + ([ctx.rng.choice(NAMES)] if ctx.rng.random() < 0.3 else []):
             try:
                 u = quiet(lambda: t[n].unit)
             except Exception as e:
                 u = exc_name(e)
             lookups.append((n, u))
             ctx.send("get", u, name=n)
+        if len(facade) < len(uniq):
+            try:
+                cm = quiet(lambda: t.column_metadata)
+                done = set(facade)
+                for n in uniq:
+                    if n not in done:
+                        lookups.append((n, cm[n].unit if n in cm else {"exc": "KeyError"}))
+            except Exception:
+                pass
 
     lookups_first = ctx.rng.random() < 0.25      # the first consultation after an operation may be a column lookup
     if lookups_first:
@@ -1504,7 +1606,11 @@ def oracle_c15(ctx, t, units):
 def _fail(ctx, what, observed, expected, key):
     if not ctx.failed:
         ctx.failed = True
-        ctx.out.fail(what, dict(ctx.case), observed, expected, key=key)
+        case = dict(ctx.case)
+        if isinstance(ctx.rng, RecRng):
+            # everything needed to re-run exactly this history, wherever it came from
+            case["recipe"] = dict(getattr(ctx, "recipe", {}), draws=list(ctx.rng.log))
+        ctx.out.fail(what, case, observed, expected, key=key)
 
 
 def probe_siblings(ctx, limit=3):
@@ -1524,11 +1630,14 @@ def probe_siblings(ctx, limit=3):
 
 # --------------------------------------------------------------------------- history drivers
 
-def run_history(out, prop, seed, stream, index, depth, weights=None, plan=None, script=None):
-    """one history; returns (model op, expectations, case, ctx) — model op is None when construction is outside the domain"""
-    rng = make_rng(seed, f"{prop}:{stream}:{index}")
+def run_history(out, prop, seed, stream, index, depth, weights=None, plan=None, script=None, draws=None):
+    """one history; returns (model op, expectations, case, ctx) — model op is None when construction is outside the domain.
+    `draws`: replay a recorded history (the random source hands back exactly these values)"""
+    rng = ReplayRng(draws) if draws is not None else RecRng(make_rng(seed, f"{prop}:{stream}:{index}"))
     case = {"seed": seed, "stream": stream, "index": index, "ops": []}
     ctx = Ctx(out, prop, rng, case)
+    ctx.recipe = {"depth": depth, "plan": None if plan is None else list(plan), "script": script,
+                  "weights": "C15" if weights is C15_WEIGHTS else None}
     try:
         init, desc, res = init_table(ctx, plan)
     except Abort:
@@ -1638,6 +1747,18 @@ E_ALPHABET = ["df_drop_rows", "df_loc_append", "df_insert!", "df_assign!", "seti
 E_PLANS = [(["a", "b"], ["f", "s"], 1, "good", True), (["a", "b"], ["f", "s"], 0, "wrong", True)]
 
 
+# size ladder for the number of columns: around pandas' repr / display thresholds and one much larger table
+WIDTHS_QUICK = [61, 64, 90, 300]
+WIDTHS_THOROUGH = [60, 61, 63, 64, 65, 90, 127, 129, 257, 300, 1025]
+WIDE_SCRIPTS = [("df_break_middle",), ("set_format", "df_break_middle"), ("df_move", "df_break_middle", "df_restore"),
+                ("copy", "df_break_middle")]
+
+
+def wide_plan(width):
+    kinds = ["f", "s", "b", "i", "s", "f", "b"]
+    return (["c%04d" % j for j in range(width)], [kinds[j % len(kinds)] for j in range(width)], 2, "good", True)
+
+
 def scripts_of(alphabet, depth):
     res = [()]
     for d in range(1, depth + 1):
@@ -1728,6 +1849,12 @@ def run(tier, seed, model_ok, translator, search=False, prop="C04", weights=None
         add(run_history(out, prop, seed, "exE%d" % e_depth, i, len(sc), weights=None,
                         plan=E_PLANS[(i + i // (len(escripts) // 2 if thorough else len(escripts) + 1)) % 2], script=list(sc)))
     out.count("exhaustive_scripts", n_scripts + len(escripts))
+    # wide tables: type-breaking edits to middle columns after a first consultation, and the usual operations
+    widths = WIDTHS_THOROUGH if thorough else WIDTHS_QUICK
+    for wi, width in enumerate(widths):
+        for si, sc in enumerate(WIDE_SCRIPTS if (thorough or width < 200) else WIDE_SCRIPTS[:2]):
+            add(run_history(out, prop, seed, "wide", wi * 10 + si, len(sc), weights=None, plan=wide_plan(width), script=list(sc)))
+            out.count("wide_tables")
     for i in range(n_rand):
         rng_d = make_rng(seed, f"{prop}:depth:{i}")
         depth = rng_d.choice([1, 2, 3, 4, 5, 6, 8, depth_max])
@@ -1748,13 +1875,21 @@ def run(tier, seed, model_ok, translator, search=False, prop="C04", weights=None
 
 
 def replay(rep, prop="C04", weights=None):
-    """histories are regenerated from (seed, stream, index)"""
+    """a failing history is re-run from its recorded draws (`recipe`); older replay files without a recipe are
+    regenerated from (seed, stream, index)"""
     inp = rep.get("input") or {}
     if "index" not in inp or "stream" not in inp:
         return False, "replay file has no input (no-failing-input-found): " + str(rep.get("broken"))[:300]
     out = Outcome()
     seed, stream, index = int(inp["seed"]), inp["stream"], int(inp["index"])
-    if stream.startswith("exE"):
+    rec = inp.get("recipe")
+    if rec and rec.get("draws") is not None:
+        # faithful replay: the recorded draws, start table plan, script and weights; no dependence on tier / stream
+        plan = rec.get("plan")
+        run_history(out, prop, seed, stream, index, rec.get("depth") or 0,
+                    weights=C15_WEIGHTS if rec.get("weights") == "C15" else None,
+                    plan=None if plan is None else tuple(plan), script=rec.get("script"), draws=rec["draws"])
+    elif stream.startswith("exE"):
         base = [x for x in scripts_of(E_ALPHABET, int(stream[3:])) if len(x) >= 2]
         sc = base[index % len(base)]
         run_history(out, prop, seed, stream, index, len(sc), plan=E_PLANS[(index + index // len(base)) % 2], script=list(sc))
